@@ -509,6 +509,14 @@ def check(ctx):
                f"load_transform, which also accepts Sim(3): for scale != 1 "
                f"the result is not the inverse",
                key="C15.5:se3-inverse-on-sim3")
+    if n_inv == 0:
+        # the inversion may be delegated to the loader: load_transform(path,
+        # invert=args.invert_transform)
+        bl = lte.data.get("bound") or {}
+        flag = [k for k, v in bl.items() if v is A("invert_transform")]
+        if len(flag) == 1 and lte.data.get("target") is not None:
+            n_inv = _delegated_inversion(ctx, prog, lte.data["target"],
+                                         flag[0])
     ctx.require(n_inv >= 1, "--invert_transform handling not found")
     # load_transform indeed validates with is_sim3 (kind SIM3)
     rl = results["evo.tools.file_interface.load_transform"]
@@ -549,6 +557,194 @@ def check(ctx):
                + ("runs before processing finished" if not ok else
                   f"file stem {fmt(dest)} does not belong to the written "
                   f"trajectory {fmt(traj)}"), key="C15.6:export")
+
+
+def _delegated_inversion(ctx, prog, loader, flag: str) -> int:
+    """C15.5 where load_transform itself inverts on request: every kind of
+    file must come back as the true inverse of what the loader returns
+    without the flag — sim3_inverse of the loaded matrix, or, where the
+    loader inverts in the (rotation, translation, scale) parametrisation of
+    a JSON file, entry by entry the definition [[R^T / s, -R^T t / s],
+    [0, 1]] of the forward matrix [[s R, t], [0, 1]] (polynomial entry
+    algebra, sa/affine.py). Returns the number of inversion sites judged."""
+    from ..affine import Aff, AffError, atom, f_add, mul, p_const, inverse, \
+        show, f_scalar
+    LIE = "evo.core.lie_algebra."
+    r1 = Interp(prog).run(loader, {flag: const(True)})
+    conds = []
+
+    def atoms_of(c: T):
+        # a condition can itself be a conditional value (`invert` re-bound
+        # in one branch): its atoms are those of all three parts
+        if c.op == "ite":
+            for z in c.args:
+                atoms_of(z)
+        elif c.op in ("and", "or", "not"):
+            for z in c.args:
+                atoms_of(z)
+        elif not tm.is_const(c) and not any(c is k for k in conds):
+            conds.append(c)
+    for x in r1.ret.walk():
+        if x.op == "ite":
+            atoms_of(x.args[0])
+    if len(conds) > 4:
+        ctx.undecidable("C15.5", loader, "load_transform(invert=True): too "
+                        "many alternatives")
+        return 1
+    import itertools
+    seen = set()
+    n = 0
+    for bits in itertools.product((True, False), repeat=len(conds)):
+        env = dict(zip(map(id, conds), bits))
+
+        def val(c: T):
+            if tm.is_const(c):
+                return bool(tm.const_val(c))
+            if c.op == "ite":
+                a_ = val(c.args[0])
+                return None if a_ is None else val(c.args[1] if a_
+                                                   else c.args[2])
+            if c.op == "not":
+                a_ = val(c.args[0])
+                return None if a_ is None else not a_
+            if c.op in ("and", "or"):
+                vs = [val(z) for z in c.args]
+                if None in vs:
+                    return None
+                return all(vs) if c.op == "and" else any(vs)
+            return env.get(id(c))
+
+        def sel(x: T):
+            if x.op == "ite":
+                v_ = val(x.args[0])
+                if v_ is not None:
+                    return x.args[1] if v_ else x.args[2]
+            return None
+        t = r1.ret
+        for _ in range(6):
+            t2 = t.map(sel)
+            if t2 is t:
+                break
+            t = t2
+        if id(t) in seen:
+            continue
+        seen.add(id(t))
+        n += 1
+        inner = t.args[1][0] if is_call_to(t, LIE + "sim3_inverse") and \
+            t.args[1] else None
+        js = [x for x in t.walk() if x.op == "call" and (
+            tm.callee_name(x) or "").endswith("load_transform_json")]
+        js_inv = [x for x in js if any(
+            tm.is_const(v, True) for _, v in x.args[2]) or (
+            len(x.args[1]) > 1 and tm.is_const(x.args[1][1], True))]
+        if inner is not None and not js_inv:
+            ctx.ob("C15.5", loader, True,
+                   f"load_transform(invert=True): "
+                   f"sim3_inverse({fmt(inner)[:50]})",
+                   key=f"C15.5:delegated:{n}")
+        elif inner is not None and js_inv:
+            ctx.ob("C15.5", loader, False,
+                   "load_transform(invert=True): a JSON transform is "
+                   "inverted by its loader *and* by sim3_inverse — the "
+                   "result is the original transformation",
+                   key=f"C15.5:delegated:{n}")
+        elif js_inv and t is js_inv[0]:
+            _json_inverse(ctx, prog, js_inv[0], n)
+        elif is_call_to(t, LIE + "se3_inverse"):
+            ctx.ob("C15.5", loader, False,
+                   "load_transform(invert=True) uses se3_inverse on a matrix "
+                   "that may be Sim(3): for scale != 1 the result is not "
+                   "the inverse", key=f"C15.5:delegated:{n}")
+        else:
+            ctx.ob("C15.5", loader, False,
+                   f"load_transform(invert=True) can return "
+                   f"{fmt(t)[:80]} — not inverted",
+                   key=f"C15.5:delegated:{n}")
+    return max(n, 1)
+
+
+def _json_inverse(ctx, prog, call: T, n: int):
+    from ..affine import Aff, AffError, atom, f_add, mul, p_const, inverse, \
+        show
+    from ..lib import strip_asarray
+    LIE = "evo.core.lie_algebra."
+    g = prog.functions.get(tm.callee_name(call))
+    if g is None:
+        ctx.undecidable("C15.5", call, "JSON loader not resolved")
+        return
+    inv_name = [k for k, v in call.args[2] if tm.is_const(v, True)]
+    inv_name = inv_name[0] if inv_name else g.params[1]
+    inl = lambda fn: fn.module.name == "evo.core.lie_algebra" and \
+        fn.name in ("sim3", "se3", "so3_from_se3")
+    runs = {}
+    for val in (False, True):
+        rr = Interp(prog, inline=inl, max_depth=3,
+                    assume=lambda a_: False if is_call_to(
+                        a_, "builtins.hasattr") else None).run(
+            g, {inv_name: const(val)})
+        runs[val] = strip_asarray(rr.ret)
+    # sources: the rotation matrix of the stored quaternion (opaque), the
+    # stored numbers
+    qm = [x for x in runs[False].walk() if x.op == "call" and (
+        tm.callee_name(x) or "").endswith("quaternion_matrix")]
+    if not qm:
+        ctx.undecidable("C15.5", g, "JSON loader: rotation source not found")
+        return
+    data_reads = {}
+    for val in (False, True):
+        for x in runs[val].walk():
+            if x.op == "sub" and tm.is_const(x.args[1]) and isinstance(
+                    x.args[1].args[1], str) and x.args[1].args[1] in (
+                    "x", "y", "z", "scale"):
+                data_reads[x] = x.args[1].args[1]
+    has_scale = [x for v in runs.values() for x in v.walk()
+                 if x.op == "cmp" and x.args[0] in ("In", "NotIn") and
+                 tm.is_const(x.args[1], "scale")]
+    bad = unknown = None
+    for with_scale in (True, False):
+        def pick(t_):
+            return tm.deep_select(t_, lambda a_: (
+                (a_.args[0] == "In") == with_scale) if any(
+                a_ is h for h in has_scale) else None)
+        fwd, inv = pick(runs[False]), pick(runs[True])
+        aff = Aff({qm[0]: ("R", [(4,), (4,)])}, dict(data_reads), [], {},
+                  unname=Interp.unname)
+        try:
+            F = [[aff.entry_at(fwd, [(i,), (j,)]) for j in range(4)]
+                 for i in range(4)]
+            G = [[aff.entry_at(inv, [(i,), (j,)]) for j in range(4)]
+                 for i in range(4)]
+        except AffError as ex:
+            unknown = str(ex)
+            continue
+        s_poly = atom(("s", "scale")) if with_scale else p_const(1)
+        k = mul(inverse(s_poly), inverse(s_poly))
+        for i in range(4):
+            for j in range(4):
+                if i == 3:
+                    exp = p_const(1 if j == 3 else 0)
+                elif j < 3:
+                    exp = mul(k, F[j][i])
+                else:
+                    tot = {}
+                    for m_ in range(3):
+                        tot = f_add(tot, mul(F[m_][i], F[m_][3]))
+                    exp = f_add({}, mul(k, tot), -1.0)
+                if G[i][j] != exp and bad is None:
+                    bad = (f"entry ({i}, {j}) of the inverted JSON "
+                           f"transform is {show(G[i][j])[:100]}, the "
+                           f"inverse of the stored transformation has "
+                           f"{show(exp)[:100]}"
+                           f"{'' if with_scale else ' (file without scale)'}")
+    if bad is None and unknown is not None:
+        ctx.undecidable("C15.5", g, f"JSON loader inversion: {unknown}")
+        return
+    ctx.ob("C15.5", g, bad is None,
+           "load_transform_json(invert=True) is, entry by entry, the inverse "
+           "[[R^T / s, -R^T t / s], [0, 1]] of the transformation it returns "
+           "without the flag" if bad is None else
+           f"load_transform_json(invert=True) is not the inverse: {bad}",
+           key=f"C15.5:delegated:{n}:json")
 
 
 def _loading(ctx):
